@@ -5,10 +5,12 @@ impl   : the real annet code — annet.annlib.lib.{huawei,cisco}_{expand,collaps
          called directly with hand-built diff buckets, and the whole patching pipeline
          (parse_to_tree -> make_diff -> make_pre -> make_patch) with the SHIPPED huawei/cisco/nexus rulebooks.
 model  : Annet.Vlan.* (lean/AnnetModel/Model/Vlan.lean) through Glue/C11.lean.
-translation (`pregen`): lean/AnnetModel/Gen/IfaceLists.lean — the command prefixes cisco/iface.py and nexus/iface.py keep on a
-         port-channel member, and the ones NX-OS hides from the old side when a port leaves its port-channel, read off the
-         Python ASTs on every run; `C11_member_lists_as_modelled` states that they say about `switchport trunk allowed vlan`
-         rows what the model's `switchportAllowedOnMember` / `cLeafIface` assume.
+translation (`pregen`): lean/AnnetModel/Gen/IfaceLists.lean — whether cisco/iface.py and nexus/iface.py keep a `switchport trunk
+         allowed vlan` row of a port-channel member, and whether NX-OS hides it from the old side when the port leaves its
+         port-channel: the real predicates are CALLED on that row on every run; `C11_member_lists_as_modelled` states that the
+         answers are what the model's `switchportAllowedOnMember` / `cLeafIface` assume.  (A first version read the prefix
+         tuples off the AST; a harmless refactoring that hoisted them into local names broke it - a false alarm of the
+         translator, found by the harmless-change round.)
 oracle : a device simulator written here (independent range reader; add / remove / clear commands executed on
          the old VLAN set) — checks final set == new set and that no common VLAN ever disappears, and that
          expand(collapse(S)) == S.  It only looks at the real code's output.
@@ -90,42 +92,31 @@ _SEQ = {}     # pipeline cases: the real order of the patch rows (impl) is echoe
 
 
 # ------------------------------------------------------------------ translation: the member allow-lists of the vendors
-def _startswith_tuple(path, fname):
-    """the string constants of `cmd_line.startswith((...))` in function `fname` of the module at `path`"""
-    tree = ast.parse(open(path, encoding="utf-8").read())
-    for n in ast.walk(tree):
-        if isinstance(n, ast.FunctionDef) and n.name == fname:
-            for c in ast.walk(n):
-                if isinstance(c, ast.Call) and isinstance(c.func, ast.Attribute) and c.func.attr == "startswith" and c.args:
-                    a = c.args[0]
-                    elts = a.elts if isinstance(a, (ast.Tuple, ast.List)) else [a]
-                    return [e.value for e in elts if isinstance(e, ast.Constant) and isinstance(e.value, str)]
-    raise ValueError("%s: no startswith((...)) in %s" % (path, fname))
-
-
-def _lstr(x):
-    return '"' + x.replace("\\", "\\\\").replace('"', '\\"') + '"'
+PROBE_ROW = "switchport trunk allowed vlan 1"
 
 
 def pregen():
-    """Gen/IfaceLists.lean: which commands cisco/iface.py and nexus/iface.py keep on a port-channel member and which
-    ones NX-OS hides from the old side when a port leaves its port-channel (read off the Python ASTs of $ANNET_REPO)"""
-    from harness.core.paths import LEAN, REPO
-    lists = [("ciscoAllowedOnChannel", "annet/rulebook/cisco/iface.py", "_is_allowed_on_channel"),
-             ("nexusAllowedOnChannel", "annet/rulebook/nexus/iface.py", "_is_allowed_on_channel"),
-             ("nexusHiddenFromOldOnLeave", "annet/rulebook/nexus/iface.py", "_is_allowed_on_old_lag_memeber")]
-    lines = ["-- generated by harness/props/c11.py (pregen) from the Python ASTs of the annet tree; do not edit", "",
-             "namespace Annet.Gen.IfaceLists", ""]
-    for name, rel, fn in lists:
-        vals = _startswith_tuple(os.path.join(REPO, rel), fn)
-        lines += ["/-- `%s` of %s -/" % (fn, rel), "def %s : List String := [%s]" % (name, ", ".join(_lstr(v) for v in vals)), ""]
+    """Gen/IfaceLists.lean: what cisco/iface.py and nexus/iface.py do with a `switchport trunk allowed vlan …` row of a
+    port-channel member — the three facts the model's `cLeafIface` depends on — obtained by CALLING the real predicates of
+    $ANNET_REPO on that row (behavioural, so that restructuring the functions does not disturb it)"""
+    from harness.core.paths import LEAN
+    from annet.rulebook.cisco import iface as ci
+    from annet.rulebook.nexus import iface as ni
+    facts = [("ciscoKeepsSwitchportRows", "cisco/iface.py _is_allowed_on_channel", bool(ci._is_allowed_on_channel(PROBE_ROW))),
+             ("nexusKeepsSwitchportRows", "nexus/iface.py _is_allowed_on_channel", bool(ni._is_allowed_on_channel(PROBE_ROW))),
+             ("nexusHidesSwitchportRowsOnLeave", "nexus/iface.py _is_allowed_on_old_lag_memeber",
+              bool(ni._is_allowed_on_old_lag_memeber(PROBE_ROW)))]
+    lines = ["-- generated by harness/props/c11.py (pregen) by calling the real predicates of the annet tree on the row",
+             "-- %r; do not edit" % PROBE_ROW, "", "namespace Annet.Gen.IfaceLists", ""]
+    for name, what, val in facts:
+        lines += ["/-- `%s(%r)` -/" % (what, PROBE_ROW), "def %s : Bool := %s" % (name, "true" if val else "false"), ""]
     lines += ["end Annet.Gen.IfaceLists", ""]
     text = "\n".join(lines)
     path = os.path.join(LEAN, "AnnetModel", "Gen", "IfaceLists.lean")
     if not os.path.exists(path) or open(path, encoding="utf-8").read() != text:
         with open(path, "w", encoding="utf-8") as f:
             f.write(text)
-        return "Gen/IfaceLists.lean rewritten"
+        return "Gen/IfaceLists.lean rewritten: %s" % [(n, v) for n, _w, v in facts]
     return "Gen/IfaceLists.lean unchanged"
 
 
